@@ -22,7 +22,7 @@ import ast
 from hpstatic.interp import Interp
 from hpstatic.logic import eval3
 from hpstatic.loader import AnalysisError
-from hpstatic.terms import sym, atoms_of, show, subterms, NONE, calls_in
+from hpstatic.terms import sym, atoms_of, show, subterms, NONE, calls_in, intern
 from .common import (HPO, THEORY, exported_classes, init_of, init_params,
                      param_defaults, final_self, code_varnames,
                      self_attr_stores, const_keys, const_list)
@@ -49,7 +49,7 @@ META = dict(
                'comprehension targets), PyYAML construct_mapping/represent_* '
                'semantics, my AST front end.  Scope quick: classes exported by '
                'holopy.scattering(.scatterer/.theory), holopy.inference, '
-               'holopy.core.prior; thorough: every HoloPyObject subclass.',
+               'holopy.core.prior (both tiers; thorough adds the mutation battery).',
 )
 
 SCOPE_PKGS = ['holopy.scattering', 'holopy.scattering.scatterer',
@@ -58,9 +58,9 @@ MODEL = 'holopy.inference.model.Model'
 
 
 def serialisable_scope(prog, tier):
+    # the property quantifies over the exported classes; internal helpers such
+    # as LnpostWrapper (a pickling shim, never saved) are out of scope
     allc = prog.subclasses(HPO, strict=True)
-    if tier == 'thorough':
-        return allc
     exp = exported_classes(prog, SCOPE_PKGS)
     return [c for c in allc if c in exp]
 
@@ -394,18 +394,19 @@ def r5_model(check, prog):
     # keys read from the saved mapping: subscripts of the variable bound to
     # loader.construct_mapping(...)
     fields_reads = set()
-    fvar = None
-    for n in ast.walk(fd):
-        if isinstance(n, ast.Assign) and isinstance(n.value, ast.Call) and \
-                ast.unparse(n.value.func).endswith('construct_mapping') and \
-                isinstance(n.targets[0], ast.Name):
-            fvar = n.targets[0].id
-    if fvar is None:
+    cm = [c for c in it.calls if c['name'] == '.construct_mapping']
+    if len(cm) != 1:
         raise AnalysisError('Model.from_yaml: construct_mapping call not found')
-    for n in ast.walk(fd):
-        if isinstance(n, ast.Subscript) and isinstance(n.value, ast.Name) and \
-                n.value.id == fvar and isinstance(n.slice, ast.Constant):
-            fields_reads.add(n.slice.value)
+    allterms = [o.value for o in res.outcomes if o.value is not None] + \
+        [t for o in res.outcomes for t, p in o.cond] + \
+        [a for c in it.calls for a in c['args']] + \
+        [v for c in it.calls for k, v in c['kwargs']] + \
+        [e['value'] for e in it.effects if e.get('value') is not None]
+    for x in subterms(intern(('tuple', tuple(allterms)))):
+        if x[0] == 'idx' and x[2][0] == 'const' and x[1][0] == 'call' and \
+                isinstance(x[1][1], tuple) and x[1][1][0] == 'attr' and \
+                x[1][1][2] == 'construct_mapping':
+            fields_reads.add(x[2][1])
     # keys written by Model._iteritems
     wq = MODEL + '._iteritems'
     wit = Interp(prog, max_depth=1)
@@ -438,20 +439,17 @@ def r5_model(check, prog):
                 mk = rc[2][0]
                 if mk[0] == 'idx' and mk[2][0] == 'const':
                     splat_maps.append(mk[2][1])
-    fixed_kwargs = set()
-    ctor = [c for c in it.calls if c['name'] == '<term>' or c['name'] == 'cls']
-    for o in res.outcomes:
-        pass
-    # constructor call: cls(**kwargs) with kwargs = {'scatterer':..,'theory':..}
-    for t in subterms(('tuple', tuple(e.get('value', NONE) for e in it.effects
-                                     if e.get('value') is not None) +
-                       tuple(o.value for o in res.outcomes if o.value is not None))):
-        pass
+    # constructor call: cls(**kwargs); the literal part of kwargs
     kw_literal = None
-    for n in ast.walk(fd):
-        if isinstance(n, ast.Assign) and isinstance(n.value, ast.Dict) and \
-                any(isinstance(t, ast.Name) and t.id == 'kwargs' for t in n.targets):
-            kw_literal = [k.value for k in n.value.keys if isinstance(k, ast.Constant)]
+    for c in it.calls:
+        star = dict(c['kwargs']).get('**')
+        if star is None or c['name'] not in (MODEL, 'cls'):
+            continue
+        t = star
+        while t[0] in ('mut', 'upd', 'copy'):
+            t = t[2] if t[0] == 'copy' else t[1]
+        if t[0] == 'dict':
+            kw_literal = const_keys(t)
     if kw_literal is None:
         raise AnalysisError('Model.from_yaml: cannot find the kwargs literal')
     check.floor('maps splatted into the model constructor', len(splat_maps), 1)
